@@ -82,7 +82,24 @@ def run(t):
                      f"Select(Select({G}, lambda e: First({sm})), lambda p: p{p2})",
                      f"Select(Select({G}, lambda e: First({sm})), lambda p: p{p1} + p{p2})",
                      f"Select({G}, lambda e: First(Where({sm}, lambda w: w{p1} > -100)){p2})"]
+    # a pass-everything cut (a selection that is switched off) in the middle of a chain: what is
+    # upstream of it still has to be compiled away (seed C14_h)
+    noop = []
+    for pk1, pr1 in (("(e.met, e.ht)", ("[0]", "[1]")), ("{'m': e.met, 'h': e.ht}", (".m", "['h']")),
+                     ("[e.met, e.ht]", ("[1]", "[0]"))):
+        for pk2, pr2 in (("(a{0}, a{1})", ("[0]", "[1]")), ("{{'x': a{0}, 'y': a{1}}}", ("['x']", ".y"))):
+            two = f"Select(Select(ds, lambda e: {pk1}), lambda a: {pk2.format(*pr1)})"
+            noop += [f"Select(Where({two}, lambda w: True), lambda b: b{pr2[0]} - b{pr2[1]})",
+                     f"Select(Where(Where({two}, lambda w: True), lambda w: w{pr2[0]} > 0), lambda b: b{pr2[1]})",
+                     f"Select(Where(Select(Where({two}, lambda w: True), lambda c: (c{pr2[1]}, 1)), "
+                     f"lambda w: True), lambda b: b[0])"]
+    noop += ["Select(ds, lambda e: Select(Where(Select(Select(e.jets, lambda j: (j.pt, j.eta)), "
+             "lambda p: {'a': p[0], 'b': p[1]}), lambda d: True), lambda d: d.a + d['b']))",
+             "Select(ds, lambda e: Count(Select(Where(Where(Select(Select(e.jets, lambda j: (j.pt, j)), "
+             "lambda p: (p[1], p[0])), lambda d: True), lambda q: q[1] > q[0].eta), lambda r: r[0].pt)))"]
     n0 = len(t.cases) if hasattr(t, "cases") else None
+    for s in noop:
+        check_one(t, s, "no-op-where")
     for s in first_sm:
         check_one(t, s, "first-of-selectmany")
     for s, sch in qs:
